@@ -182,37 +182,3 @@ func VF_C09_c_timestamp() {
 	}
 	vf.Observe("iv", iv)
 }
-
-// C09.c (timestamp, variant NOT registered in props - written last, never run): same claim with the block timestamp taken
-// relative to the clock reading so that a counterexample (mutant isfuture-gt) replays under the real clock.
-// C09.c (timestamp rel): DPoS.VerifyTimestamp rejects a block whose timestamp is two or more slots ahead of the local
-// clock and accepts one that is less than one slot ahead (no LIB status attached). The clock is read before and after
-// the call; the real function reads it in between.
-func VF_C09_c_timestamp_rel() {
-	// the block interval is enumerated (1..maxInterval s): with a symbolic divisor the two slot-index divisions and the
-	// clock terms make the query non-linear
-	iv := int64(1 + vf.Choice("intervalSec", vf.Param("maxInterval", 3)))
-	slot.Init(iv)
-	d := &DPoS{}
-	t0 := time.Now().UnixNano()
-	vf.Assume(t0 < 1<<61) // the clock is far from the int64 horizon (2^61 ns = year 2043)
-	// the block timestamp is taken relative to the clock reading so that a counterexample replays under the real clock
-	delta := vf.I64("timestamp-now")
-	vf.Assume(delta < 1<<50)
-	vf.Assume(delta > -(1 << 50))
-	ts := t0 + delta
-	// Hash is preset: the rejection path only logs the block id, the id computation is not under test here
-	blk := &types.Block{Hash: make([]byte, 32), Header: &types.BlockHeader{Timestamp: ts, PubKey: []byte{0xff}}}
-	ok := d.VerifyTimestamp(blk)
-	t1 := time.Now().UnixNano()
-	vf.Assume(t1 < 1<<61)
-	vf.Reach("C09.c.timestamp.rel")
-	const ms = 1000000
-	if ts >= t1+2*iv*1000*ms+ms {
-		vf.Assert(!ok, "C09.c.timestamp.rel")
-	}
-	if ts <= t0+iv*1000*ms-ms {
-		vf.Assert(ok, "C09.c.timestamp.rel")
-	}
-	vf.Observe("iv", iv)
-}
